@@ -14,7 +14,7 @@ import (
 
 func runC13(c *core.Ctx) {
 	runFixtures(c, "drop", "locks", "eofmap")
-	c.Explain("Schedules and fault sequences cannot be enumerated statically; the orderings the code relies on can be checked on every path. Decided from source: (R13.1) the announce call (pubsub Emit) is made only from the writer of regular entries, after the destination file's Close on that path and only when the writer's result error is nil; every write to the file precedes it; (R13.2) the Close error of the written destination file takes part in that result (a failed Close blocks the announcement); (R13.3) in the tar FS's Open the destination is opened only after the wait for the name and on the nil edge of the unpack error, and an invalid name returns before waiting; (R13.4) in the reader goroutine the unpack error is stored before the cancel functions that release waiters are called, and both are called on every exit; (R13.5) the announce table's maps are accessed only under its mutex (writes under the write lock), the visited test and the subscription in Wait share one critical section, and marking visited and taking over the subscriber list in Emit share one write-locked section with the callbacks run after it; (R13.6) an Open that proceeds past the wait has a reason — the name was announced or the reader has finished; (R13.8) every buffer taken from a bounded pool is given back on every path on which the unpack continues — a leak blocks the reader, and with it Done and every pending Open; (R13.7) every background writer goroutine is registered with Add before it starts, calls Done on all its exits and sends every non-nil error on the error channel; (R13.9) the context whose Done channel the file system's Done() returns is derived from context.Background, not from the caller's context. (R13.10) no function of package tar compares an error with io.ErrUnexpectedEOF and, on that edge, returns nil or io.EOF — archive/tar reports a stream that ends inside an entry with exactly that error, and an entry written from such a stream must fail the unpack instead of being announced. (R13.11) the buffer pool never provisions more buffers than its channel holds, so the last Done() cannot block. (R13.12) only spawned writers send on the error channel; (R13.13) = R12.2 under C13. (R13.14) no function of package tar returns with a mutex held; (R13.15) pool buffers are allocated after the slot reservation succeeded. NOT claimed: completeness of bytes under every interleaving as such; liveness beyond R13.4/R13.7.")
+	c.Explain("Schedules and fault sequences cannot be enumerated statically; the orderings the code relies on can be checked on every path. Decided from source: (R13.1) the announce call (pubsub Emit) is made only from the writer of regular entries, after the destination file's Close on that path and only when the writer's result error is nil; every write to the file precedes it; (R13.2) the Close error of the written destination file takes part in that result (a failed Close blocks the announcement); (R13.3) in the tar FS's Open the destination is opened only after the wait for the name and on the nil edge of the unpack error, and an invalid name returns before waiting; (R13.4) in the reader goroutine the unpack error is stored before the cancel functions that release waiters are called, and both are called on every exit; (R13.5) the announce table's maps are accessed only under its mutex (writes under the write lock), the visited test and the subscription in Wait share one critical section, and marking visited and taking over the subscriber list in Emit share one write-locked section with the callbacks run after it; (R13.6) an Open that proceeds past the wait has a reason — the name was announced or the reader has finished; (R13.8) every buffer taken from a bounded pool is given back on every path on which the unpack continues — a leak blocks the reader, and with it Done and every pending Open; (R13.7) every background writer goroutine is registered with Add before it starts, calls Done on all its exits and sends every non-nil error on the error channel; (R13.9) the context whose Done channel the file system's Done() returns is derived from context.Background, not from the caller's context. (R13.10) no function of package tar compares an error with io.ErrUnexpectedEOF and, on that edge, returns nil or io.EOF — archive/tar reports a stream that ends inside an entry with exactly that error, and an entry written from such a stream must fail the unpack instead of being announced. (R13.11) the buffer pool never provisions more buffers than its channel holds, so the last Done() cannot block. (R13.12) only spawned writers send on the error channel; (R13.13) = R12.2 under C13. (R13.14) no function of package tar returns with a mutex held; (R13.15) pool buffers are allocated after the slot reservation succeeded. (R13.16) = R12.17 under C13. NOT claimed: completeness of bytes under every interleaving as such; liveness beyond R13.4/R13.7.")
 	c.Assume("A2: sync, context, io semantics as documented")
 	c.RuleDoc("R13.1", "announce after close, only on success, only from the writer")
 	c.RuleDoc("R13.2", "close failure blocks the announcement")
